@@ -442,6 +442,15 @@ func RunDialogue(d Desc) mon.Result {
 	}
 	n, sent := len(d.Events), d.Sent()
 	nontrivial := false
+	if d.Fresh {
+		// let the initial prompt reach the channel's queue as a read of its own, so that the
+		// fresh-session hazard shows (or not) independently of how fast the call follows Open;
+		// no verdict depends on this wait
+		r.conn.WaitDelivered(len(d.Prompt), 2*time.Second)
+		time.Sleep(3 * time.Millisecond)
+		r.tag("fresh-session")
+		r.obs["fresh_sessions"]++
+	}
 	if n > 0 {
 		promptRe := r.gd.Channel.PromptPattern // the very pattern the session uses
 		var comp []*regexp.Regexp
